@@ -294,6 +294,12 @@ use once_cell::sync::Lazy;
 static MAPPED_KEYS: Lazy<Mutex<cfg::MappedKeys>> =
     Lazy::new(|| Mutex::new(cfg::MappedKeys::default()));
 
+/// Verification hook: mocked clock for `handle_time_ticks`.
+#[cfg(kanata_verif)]
+pub mod verif_clock {
+    pub static NOW: parking_lot::Mutex<Option<instant::Instant>> = parking_lot::Mutex::new(None);
+}
+
 impl Kanata {
     pub fn new(args: &ValidatedArgs) -> Result<Self> {
         let cfg = match cfg::new_from_file(&args.paths[0]) {
@@ -748,7 +754,12 @@ impl Kanata {
     /// Returns the number of ticks that elapsed.
     fn handle_time_ticks(&mut self, tx: &Option<Sender<ServerMessage>>) -> Result<u16> {
         const NS_IN_MS: u128 = 1_000_000;
+        #[cfg(not(kanata_verif))]
         let now = instant::Instant::now();
+        #[cfg(kanata_verif)]
+        let now = verif_clock::NOW
+            .lock()
+            .unwrap_or_else(instant::Instant::now);
         let ns_elapsed = now.duration_since(self.last_tick).as_nanos();
         let ns_elapsed_with_rem = ns_elapsed + self.time_remainder;
         let ms_elapsed = ns_elapsed_with_rem / NS_IN_MS;
@@ -796,6 +807,14 @@ impl Kanata {
         // end up being wrong. Prefer to do the cheaper operation, as compared to doing the min of
         // u16::MAX and ms_elapsed.
         Ok(ms_elapsed as u16)
+    }
+
+    /// Verification hook: one simulated millisecond of the processing loop's time handling
+    /// (ticks, layer-change notification, deferred live reload) with a mocked clock.
+    #[cfg(kanata_verif)]
+    pub fn verif_handle_time_ticks(&mut self, tx: &Option<Sender<ServerMessage>>) -> Result<u16> {
+        *verif_clock::NOW.lock() = Some(self.last_tick + std::time::Duration::from_millis(1));
+        self.handle_time_ticks(tx)
     }
 
     pub fn tick_ms(&mut self, ms_elapsed: u128, _tx: &Option<Sender<ServerMessage>>) -> Result<()> {
